@@ -149,8 +149,11 @@ def run(tier, seed):
                 rep.count(1, key=case)
                 rep.sample({'case': case, 'final_result': fin['_result'], 'uninterrupted': fin['_uninterrupted'], 'points': fin['_points']}, limit=5)
     # extension beyond the listed properties: refinement structure of the cell strategy (spec/CellScheme.tla), drift reports only
-    from harness.drivers import cellscheme_extra
-    cellscheme_extra.run(rep, tier)
+    try:
+        from harness.drivers import cellscheme_extra
+        cellscheme_extra.run(rep, tier)
+    except Exception as ex:      # the extension never decides the listed property
+        rep.exclude('extension CellScheme.tla not evaluated: %r' % (ex,))
     return conclude(rep, traces, ('C14_',))
 
 
